@@ -690,6 +690,30 @@ V_C17(S, e, T, aux) ==
   (IF EngOp(e, "open_position") /\ Len(e.calls) >= 2 /\ e.calls[2].msg = "swap_input"
    THEN Tag(e.calls[2].args.base_asset_limit = e.tx.a.limit, "C17.forward_open") ELSE {})
   \cup
+  \* outcome-based, and on the SPECIFICATION's own classification of the order (not on the path the
+  \* implementation chose): an OpenPosition that opens, increases or reduces a position - the sender holds
+  \* nothing, or trades on the position's side, or trades against it for less than its current value -
+  \* and succeeds with a non-zero limit has given the sender at least the limit (buy) / taken at most the
+  \* limit (sell) in base asset
+  (IF EngOp(e, "open_position") /\ e.res.ok /\ e.tx.a.limit # 0 /\ e.tx.a.vamm \in Vs(S) /\ e.tx.s \in Traders
+   THEN LET v == e.tx.a.vamm
+            t == e.tx.s
+            p == PosOf(S, v, t)
+            p2 == PosOf(T, v, t)
+            n == (e.tx.a.margin * e.tx.a.leverage) \div S.eng.cfg.D
+            same == (p.size > 0) = (e.tx.a.side = "buy")
+            pn == [p EXCEPT !.dir = IF p.size > 0 THEN "add" ELSE "rem"]      \* direction from the sign of the size
+            val == IF Held(p) /\ ~same THEN PnL(S, v, pn, "spot") ELSE [ok |-> TRUE, over |-> FALSE, notional |-> 0, pnl |-> 0]
+            class == IF ~Held(p) THEN "open" ELSE IF same THEN "increase"
+                     ELSE IF val.over \/ ~val.ok THEN "unknown" ELSE IF val.notional > n THEN "reduce" ELSE "reversal"
+            s1 == IF p.exists THEN p.size ELSE 0
+            s2 == IF p2.exists THEN p2.size ELSE 0
+            d == Abs(s2 - s1)
+        IN IF class \in {"open", "increase", "reduce"}
+           THEN Tag(IF e.tx.a.side = "buy" THEN d >= e.tx.a.limit ELSE d <= e.tx.a.limit, "C17.engine_limit_outcome")
+           ELSE {}
+   ELSE {})
+  \cup
   \* a trader who holds nothing opens a position: the trade that opens it carries the caller's limit,
   \* whatever stale record the engine keeps for that trader
   (IF EngOp(e, "open_position") /\ e.tx.a.vamm \in Vs(S) /\ e.tx.s \in Traders /\ ~Held(PosOf(S, e.tx.a.vamm, e.tx.s))
